@@ -408,7 +408,7 @@ func runC03(c *Ctx) {
 			})
 			c.Check("I5-missing-key-zero", key, okT && okF, in.Pos(), "the element is returned only when IsValid(); otherwise reflect.Zero of the map's element type %s", zeroWhy)
 		})
-		c.Min("I5-missing-key-zero", 2)
+		c.Min("I5-missing-key-zero", 1)
 	}
 }
 
@@ -536,46 +536,76 @@ func (c *Ctx) ruleI3(kinds map[int64]string) {
 	if f := c.MustFn("I3-GetWantedValue", "internal/core", "", "GetWantedValue"); f != nil {
 		x := c.Index(f)
 		rows := 0
+		handled := map[string]bool{}
+		defaultPasses := true
 		eachInstr(f, func(in ssa.Instruction) {
 			r, ok := in.(*ssa.Return)
 			if !ok {
 				return
 			}
 			_, ks := x.caseConsts(r.Block())
-			if len(ks) != 1 || !numeric[kinds[ks[0]]] {
+			if len(ks) == 0 {
+				// outside the table: whatever gets here is handed on as it is
+				for _, pv := range x.PossibleValues(r.Results[0]) {
+					if pv.V != ssa.Value(f.Params[0]) {
+						defaultPasses = false
+					}
+				}
 				return
 			}
-			kname := kinds[ks[0]]
-			rows++
-			key := "GetWantedValue#" + kname
-			ok2 := true
-			why := ""
-			for _, pv := range x.PossibleValues(r.Results[0]) {
-				if pv.V == ssa.Value(f.Params[0]) {
-					if kname != "Int64" && kname != "Uint64" && kname != "Float64" {
-						ok2, why = false, "the value is passed on unconverted"
+			for _, kc := range ks {
+				if !numeric[kinds[kc]] {
+					continue
+				}
+				kname := kinds[kc]
+				if handled[kname] {
+					continue
+				}
+				handled[kname] = true
+				rows++
+				key := "GetWantedValue#" + kname
+				ok2 := true
+				why := ""
+				for _, pv := range x.PossibleValues(r.Results[0]) {
+					if pv.V == ssa.Value(f.Params[0]) {
+						if kname != "Int64" && kname != "Uint64" && kname != "Float64" {
+							ok2, why = false, "the value is passed on unconverted"
+						}
+						continue
 					}
-					continue
+					vo, isCall := pv.V.(*ssa.Call)
+					if !isCall || !fnIs(vo.Call.StaticCallee(), "reflect", "", "ValueOf") {
+						ok2, why = false, "unexpected result "+x.Describe(pv.V)
+						continue
+					}
+					acc, recv, typ := x.accessorOf(vo.Call.Args[0])
+					if basicName(typ) != strings.ToLower(kname) {
+						ok2, why = false, "converts to "+basicName(typ)
+					}
+					if accessorClass[acc] != kindClass(kname) {
+						ok2, why = false, "reads the value with ."+acc+"()"
+					}
+					if x.Origin(recv) != ssa.Value(f.Params[0]) {
+						ok2, why = false, "reads another value"
+					}
 				}
-				vo, isCall := pv.V.(*ssa.Call)
-				if !isCall || !fnIs(vo.Call.StaticCallee(), "reflect", "", "ValueOf") {
-					ok2, why = false, "unexpected result "+x.Describe(pv.V)
-					continue
-				}
-				acc, recv, typ := x.accessorOf(vo.Call.Args[0])
-				if basicName(typ) != strings.ToLower(kname) {
-					ok2, why = false, "converts to "+basicName(typ)
-				}
-				if accessorClass[acc] != kindClass(kname) {
-					ok2, why = false, "reads the value with ."+acc+"()"
-				}
-				if x.Origin(recv) != ssa.Value(f.Params[0]) {
-					ok2, why = false, "reads another value"
-				}
+				c.Check("I3-GetWantedValue", key, ok2, r.Pos(), "target kind %s: %s", kname, orStr(why, "converted to that kind with the accessor of its class"))
 			}
-			c.Check("I3-GetWantedValue", key, ok2, r.Pos(), "target kind %s: %s", kname, orStr(why, "converted to that kind with the accessor of its class"))
 		})
-		c.Check("I3-GetWantedValue", "rows", rows == 12, f.Pos(), "%d of the 12 numeric target kinds handled", rows)
+		// the nine narrower kinds need a row of their own; a 64-bit kind may also be left to
+		// the path outside the table, which hands the value on unconverted
+		missing := ""
+		for _, kname := range []string{"Int", "Int8", "Int16", "Int32", "Uint", "Uint8", "Uint16", "Uint32", "Float32"} {
+			if !handled[kname] {
+				missing += " " + kname
+			}
+		}
+		for _, kname := range []string{"Int64", "Uint64", "Float64"} {
+			if !handled[kname] && !defaultPasses {
+				missing += " " + kname
+			}
+		}
+		c.Check("I3-GetWantedValue", "rows", missing == "", f.Pos(), "%d numeric target kinds have a row; without one:%s", rows, orStr(missing, " none"))
 	}
 	// setters
 	setterGroup := map[string]string{"SetInt": "int", "SetUint": "uint", "SetFloat": "float", "SetString": "string", "SetBool": "bool"}
@@ -642,7 +672,7 @@ func (c *Ctx) ruleI3(kinds map[int64]string) {
 	}
 	c.Min("I3-setters", 20)
 	c.Min("I3-ParamsTypeChange", 37)
-	c.Min("I3-GetWantedValue", 13)
+	c.Min("I3-GetWantedValue", 10)
 }
 
 func kindNames(kinds map[int64]string, ks []int64) []string {
